@@ -6,7 +6,7 @@
    `parse` = the parser model of C10; `erase e` = the untyped tree e was elaborated from. *)
 From Coq Require Import List NArith Bool.
 From NV Require Import Syntax.Token Syntax.Ast Syntax.StrEsc Syntax.Parser Syntax.Grammar
-     Syntax.StrEscProofs Syntax.TypedPrinter Syntax.TypedPrinterProofs.
+     Syntax.StrEscProofs Syntax.TypedPrinter Syntax.TypedPrinterProofs Syntax.FixedPoint.
 Import ListNotations.
 Local Open Scope N_scope.
 
@@ -19,7 +19,7 @@ Proof. exact string_escape_roundtrip. Qed.
 Print Assumptions C15_string_escape.
 
 (* The echo of every printable expression (any depth; all operators, calls, callables,
-   conditionals, field access, strings, temperature sugar) is accepted by the parser and read
+   conditionals, field access, list and struct literals, strings, temperature sugar) is accepted by the parser and read
    back as the tree its concrete syntax denotes. *)
 Theorem C15_roundtrip_partial : forall e : texpr,
   printable_t e = true -> parse (pp e) = Ok [reread e] [].
@@ -33,11 +33,21 @@ Theorem C15_roundtrip_exact : forall e : texpr,
 Proof. exact echo_roundtrip_exact. Qed.
 Print Assumptions C15_roundtrip_exact.
 
+(* The fixed-point clause: reading the echo back and elaborating it again (in a session in which
+   the same names are units resp. functions: `lift is_unit is_fn`) gives a tree with the same echo.
+   Partial: expressions without temperature sugar, digit separators and negative literals. *)
+Theorem C15_fixed_point_partial : forall (is_unit is_fn : str -> bool) (e : texpr),
+  printable_t e = true -> exact_t e = true -> consistent is_unit is_fn e = true ->
+  exists u, parse (pp e) = Ok [u] [] /\ pp (lift is_unit is_fn u) = pp e.
+Proof. exact echo_fixed_point. Qed.
+Print Assumptions C15_fixed_point_partial.
+
 (* NOT PROVED (partial): (1) for the temperature sugar forms `reread e` equals `erase e` only up
-   to numbat's elaboration of `x °C` / `x -> °C` (not modelled); (2) the echo is a fixed point
-   (pp of the re-elaborated tree = pp e); (3) statements (let/fn/unit/dimension/struct with
-   types and decorators), struct and list literals and interpolated strings are not in the
-   printer model.  All three are checked on the implementation by the echo oracle. *)
+   to numbat's elaboration of `x °C` / `x -> °C` (not modelled), and the fixed point is not proved
+   for them; (2) statements (let/fn/unit/dimension/struct with types and decorators) and
+   interpolated strings are not in the printer model; (3) type inference itself (that the
+   re-elaborated tree has the same types) is outside the model.  All are checked on the
+   implementation by the echo oracle. *)
 Definition C15_full : Prop :=
   forall e : texpr, printable_t e = true ->
   exists u, parse (pp e) = Ok [u] [] /\ forall e', erase e' = u -> pp e' = pp e.
@@ -79,4 +89,24 @@ Example C15_ex_sugar_and_negative_exponent :
   /\ parse (pp (XNeg fc)) = Ok [EUn Negate (ECall (EIdent n_from_celsius) [EScalar [53]%N])] []
   /\ pp (XBin Power (n_ 55) (XScalar true [49]%N))
      = [TNumber [55]; TPower; TLParen; TMinus; TNumber [49]; TRParen]%N.
+Proof. vm_compute. repeat split; reflexivity. Qed.
+
+(* struct and list literals: Pt { x: [1, a + b], y: [] }.x *)
+Example C15_ex_struct_list :
+  let e := XField (XStruct [80; 116] [([120], XList [n_ 49; XBin Add (x_ 97) (x_ 98)]); ([121], XList [])]) [120] in
+  printable_t e = true /\ exact_t e = true
+  /\ pp e = [TIdent [80; 116]; TLCurly; TIdent [120]; TColon; TLBracket; TNumber [49]; TComma; TIdent [97]; TPlus;
+            TIdent [98]; TRBracket; TComma; TIdent [121]; TColon; TLBracket; TRBracket; TRCurly; TPeriod; TIdent [120]]
+  /\ parse (pp e) = Ok [erase e] [].
+Proof. vm_compute. repeat split; reflexivity. Qed.
+
+(* the hypotheses of the fixed-point theorem are satisfiable: `m` is a unit, `f` a function *)
+Example C15_ex_fixed_point :
+  let is_unit := fun n => str_eqb n [109] in
+  let is_fn := fun n => str_eqb n [102] in
+  let e := XBin Div (XCall [102] [XBin Mul (n_ 50) (XUnit [109])]) (XBin Add (x_ 97) (XBin Mul (n_ 51) (x_ 98))) in
+  printable_t e = true /\ exact_t e = true /\ consistent is_unit is_fn e = true
+  /\ pp e = [TIdent [102]; TLParen; TNumber [50]; TIdent [109]; TRParen; TDivide; TLParen; TIdent [97]; TPlus;
+            TNumber [51]; TIdent [98]; TRParen]
+  /\ lift is_unit is_fn (erase e) = e.
 Proof. vm_compute. repeat split; reflexivity. Qed.
